@@ -5,6 +5,7 @@
 #include "access.hpp"
 #include <thread>
 #include <functional>
+#include <atomic>
 #include <pthread.h>
 
 namespace tpl
@@ -52,9 +53,13 @@ struct TermF
 
 // the same functor TYPE for every term, told apart by its state (typed terms written with one functor class and different constructor
 // arguments, e.g. typed_term(char_term('+'), as_op{op::add}) / typed_term(char_term('-'), as_op{op::sub}))
+// a functor that is callable both as a const and as a non-const object: a const parser must pick the const overload (C15: parse() cannot write into the parser)
+inline std::atomic<long> g_nonconst_calls{0};
+
 struct TermFS
 {
     int t = 0;
+    V operator()(std::string_view sv) { ++g_nonconst_calls; return static_cast<const TermFS&>(*this)(sv); }
     V operator()(std::string_view sv) const
     {
         if (g_log) { g_log->terms.push_back(TermCall{t, sv.data(), sv.size()}); }
@@ -83,6 +88,8 @@ template<int R>
 struct F
 {
     template<class... A>
+    TV operator()(A&&... a) { ++g_nonconst_calls; return static_cast<const F&>(*this)(std::forward<A>(a)...); }
+    template<class... A>
     TV operator()(A&&... a) const
     {
         functor_hooks();
@@ -99,6 +106,8 @@ struct F
 template<int R>
 struct FC
 {
+    template<class C, class... A>
+    TV operator()(C&& ctx, A&&... a) { ++g_nonconst_calls; return static_cast<const FC&>(*this)(std::forward<C>(ctx), std::forward<A>(a)...); }
     template<class C, class... A>
     TV operator()(C&& ctx, A&&... a) const
     {
